@@ -12,7 +12,7 @@ from .. import env  # noqa: F401
 from .. import gen, build, mcase, monitors
 
 ID = "C07"
-CASES = {"quick": 2000, "thorough": 150000}
+CASES = {"quick": 6000, "thorough": 150000}
 MIN_CASES_PER_SHARD = 40
 CASE_TIMEOUT = 60
 RULE = ("one case = generated map x trace x configuration with max_lattice_width W in 1..4 (all families, non-emitting on/off, avoid_goingback "
@@ -167,7 +167,7 @@ def check_case(ctx, case):
 
 
 TECHNIQUE = "runtime monitoring: online invariant monitor on the live pruning state at every expansion boundary + differential sibling executions (pruned/unpruned/wide) + widening histories"
-LEVEL_TEXT = ("2k (quick) / 150k (thorough) generated cases; every expansion window of every real run (~10 per run, incl. non-emitting layers) is "
+LEVEL_TEXT = ("{Q} (quick) / {T} (thorough) generated cases; every expansion window of every real run (~10 per run, incl. non-emitting layers) is "
               "checked online for: expanded set within top-W plus ties, strict max(postponed) < min(expanded), next() only and always on the "
               "candidates of the current round; plus pruned<=unpruned, wide-enough==unpruned and monotone widening on index and best probability. "
               "Held-on-observed.")
